@@ -257,6 +257,51 @@ class CloseFlushes(Contract):
         ctx.oblige("plain-groups-are-not-rewritten-at-close", not others)
 
 
+class FetchChildrenClosed(Contract):
+    """After closing, asking for the children of any stored entity raises the closed-file error --
+    also for a drillhole group whose holes were loaded during the session (no stale list)."""
+    target = "geoh5py/workspace/workspace.py::Workspace.fetch_children"
+    variant = "closed-workspace"
+    props = ("C11",)
+    lenient = True
+
+    def cases(self):
+        return ["points", "group", "drillhole-group-with-loaded-holes", "drillhole-group-without-holes"]
+
+    def setup(self, ctx):
+        from contracts.concat import concatenator_class
+        from geoh5py.groups import ContainerGroup
+        from geoh5py.objects import Points
+        from geoh5py.shared.exceptions import Geoh5FileClosedError
+        from geoh5py.workspace import Workspace
+
+        me = Opaque("self", cls=Workspace)
+
+        def io_call(I, a, kw):
+            I.event("io")
+            raise RaiseSig(Geoh5FileClosedError, "Workspace.geoh5")
+
+        ioc = Opaque("_io_call")
+        ioc.maybe_method = io_call
+        me.attrs["_io_call"] = ioc
+        cls = {"points": Points, "group": ContainerGroup}.get(ctx.case, None) or concatenator_class()
+        ent = Opaque("entity", cls=cls)
+        ent.attrs["uid"] = Opaque("uid")
+        ent.attrs["on_file"] = True
+        kids = PList([Opaque("hole-1"), Opaque("hole-2")]) if ctx.case == "drillhole-group-with-loaded-holes" else PList([])
+        ent.attrs["children"] = kids
+        ent.attrs["_children"] = kids
+        return [me, ent], {}
+
+    def post(self, ctx, result):
+        ctx.oblige("a-closed-workspace-does-not-answer-from-memory", False, note="children were returned although the file is closed")
+
+    def post_raises(self, ctx, sig):
+        from geoh5py.shared.exceptions import Geoh5FileClosedError
+
+        ctx.oblige("the-closed-file-error-is-raised", sig.exc_class is Geoh5FileClosedError, kind="post-exc")
+
+
 class ExitContract(Contract):
     target = "geoh5py/workspace/workspace.py::Workspace.__exit__"
     props = ("C11",)
@@ -388,4 +433,4 @@ def _enclosing(node):
     return cur.name if cur is not None else "<module>"
 
 
-CONTRACTS = [IoCall, Geoh5Getter, UpdateAttributeGuard, CloseContract, CloseFlushes, ExitContract, FetchActiveWorkspace]
+CONTRACTS = [IoCall, Geoh5Getter, UpdateAttributeGuard, CloseContract, CloseFlushes, FetchChildrenClosed, ExitContract, FetchActiveWorkspace]
